@@ -432,3 +432,466 @@ Proof.
     rewrite Z.max_l in H by lia.
     rewrite H; lia.
 Qed.
+
+(* ------------------------------------------------------------------------- *)
+(* Part 4: the syntax of the two texts as sscanf and the recognisers see them *)
+Definition dig (c : Z) : Prop := isdigit c = true.
+
+Lemma takewhile_app f ds tail :
+  Forall (fun c => f c = true) ds -> f (hd0 tail) = false -> takewhile f (ds ++ tail) = ds.
+Proof.
+  intros Hd Ht. induction Hd as [|c ds Hc Hd IH]; cbn [app].
+  - destruct tail as [|c r]; [reflexivity|]. cbn in *. unfold hd0, at_ in Ht. cbn in Ht. now rewrite Ht.
+  - cbn [takewhile]. rewrite Hc. now f_equal.
+Qed.
+
+Lemma firstn_app_exact (a b : list Z) : firstn (length (a ++ b) - length b) (a ++ b) = a.
+Proof.
+  rewrite app_length. replace (length a + length b - length b)%nat with (length a + 0)%nat by lia.
+  rewrite firstn_app_2. cbn. apply app_nil_r.
+Qed.
+
+Lemma same_pos_longer (a b : list Z) : a <> [] -> same_pos (a ++ b) b = false.
+Proof.
+  intros Ha. unfold same_pos. apply Nat.eqb_neq. rewrite app_length.
+  destruct a; [contradiction|cbn [length]; lia].
+Qed.
+
+(* tok_end walks over characters that end no literal *)
+Definition tokch' (c : Z) : bool := negb (isspace c || (c =? 41) || (c =? 93)).
+
+Lemma tok_end_skip t r : Forall (fun c => tokch c = true) t -> tok_end (t ++ r) = tok_end r.
+Proof.
+  intros Ht. induction Ht as [|c t Hc Ht IH]; cbn [app]; [reflexivity|].
+  cbn [tok_end]. unfold tokch in Hc. apply negb_true_iff in Hc.
+  apply orb_false_iff in Hc as [Hc H46]. rewrite Hc. cbn [orb].
+  replace (starts_with ellipsis (c :: t ++ r)) with false; [exact IH|].
+  symmetry. unfold starts_with, ellipsis. cbn [strip_prefix]. now rewrite H46.
+Qed.
+
+Lemma tok_end_dot r : hd0 r <> 46 -> tok_end (46 :: r) = tok_end r.
+Proof.
+  intros H. cbn [tok_end]. change (isspace 46 || (46 =? 41) || (46 =? 93)) with false. cbn [orb].
+  replace (starts_with ellipsis (46 :: r)) with false; [reflexivity|].
+  symmetry. unfold starts_with, ellipsis. cbn [strip_prefix]. rewrite Z.eqb_refl.
+  destruct r as [|c r]; [reflexivity|]. unfold hd0, at_ in H. cbn in H.
+  now replace (c =? 46) with false by lia.
+Qed.
+
+Lemma tok_end_stop c r : isspace c || (c =? 41) || (c =? 93) = true -> tok_end (c :: r) = c :: r.
+Proof. intros H. cbn [tok_end]. now rewrite H. Qed.
+
+(* ---- the decimal text ----------------------------------------------------------- *)
+Lemma dec_fixed_acc w : forall n acc, dec_fixed w n acc = dec_fixed w n [] ++ acc.
+Proof.
+  induction w as [|w IH]; intros n acc; cbn [dec_fixed]; [reflexivity|].
+  rewrite (IH (n / 10) ((48 + n mod 10) :: acc)), (IH (n / 10) [48 + n mod 10]).
+  rewrite <- app_assoc. reflexivity.
+Qed.
+
+Lemma dec_fixed_digits w : forall n, Forall dig (dec_fixed w n []).
+Proof.
+  induction w as [|w IH]; intros n; [constructor|]. cbn [dec_fixed]. rewrite dec_fixed_acc.
+  apply Forall_app. split; [apply IH|]. constructor; [|constructor].
+  apply isdigit_spec. pose proof (Z.mod_pos_bound n 10 ltac:(lia)). lia.
+Qed.
+
+Definition dectext (sg : str) (n1 : Z) (fr : str) : str := sg ++ dec_nat n1 ++ 46 :: fr.
+Definition okdec (sg : str) (n1 : Z) (fr : str) : Prop :=
+  (sg = [] \/ sg = [45]) /\ 0 <= n1 /\ Forall dig fr.
+
+Lemma round_nonneg n d : 0 <= n -> 0 < d -> 0 <= round_half_even n d.
+Proof.
+  intros Hn Hd. unfold round_half_even. pose proof (Z.div_pos n d Hn Hd).
+  destruct ((d <? 2 * (n mod d)) || ((2 * (n mod d) =? d) && Z.odd (n / d))); lia.
+Qed.
+
+Lemma fmt_f_shape p b : exists sg n1 fr, fmt_f p b = dectext sg n1 fr /\ okdec sg n1 fr.
+Proof.
+  unfold fmt_f, f64_mx.
+  set (e := b / 2 ^ 52 mod 2 ^ 11). set (f := b mod 2 ^ 52).
+  assert (Hf : 0 <= f) by (apply Z.mod_pos_bound; lia).
+  assert (H10 : 0 <= 10 ^ p) by (apply Z.pow_nonneg; lia).
+  assert (Hgen : forall m x, 0 <= m ->
+     exists sg n1 fr,
+       (let scaled := m * 10 ^ p in
+        let n := if 0 <=? x then scaled * 2 ^ x else round_half_even scaled (2 ^ (- x)) in
+        (if f64_sign b then [45] else []) ++ dec_nat (n / 10 ^ p) ++ 46 :: dec_fixed (Z.to_nat p) (n mod 10 ^ p) [])
+       = dectext sg n1 fr /\ okdec sg n1 fr).
+  { intros m x Hm. cbv zeta.
+    set (n := if 0 <=? x then m * 10 ^ p * 2 ^ x else round_half_even (m * 10 ^ p) (2 ^ (- x))).
+    assert (Hn : 0 <= n).
+    { unfold n. destruct (0 <=? x) eqn:Ex.
+      - pose proof (pow2_gt0 x ltac:(lia)). nia.
+      - apply round_nonneg; [nia|apply pow2_gt0; lia]. }
+    exists (if f64_sign b then [45] else []), (n / 10 ^ p), (dec_fixed (Z.to_nat p) (n mod 10 ^ p) []).
+    split; [reflexivity|]. split; [destruct (f64_sign b); auto|]. split; [|apply dec_fixed_digits].
+    destruct (Z.eq_dec (10 ^ p) 0) as [E0|E0]; [rewrite E0, Zdiv_0_r; lia|apply Z.div_pos; lia]. }
+  destruct (e =? 0); apply Hgen; lia.
+Qed.
+
+Lemma sc_i_signed sg n rest : (sg = [] \/ sg = [45]) -> 0 <= n -> num_follow rest ->
+  exists v, sc_i (sg ++ dec_nat n ++ rest) = Some (v, rest).
+Proof.
+  intros [->| ->] Hn Hr; cbn [app].
+  - exists n. replace (dec_nat n) with (print_d n) by (unfold print_d; now replace (n <? 0) with false by lia).
+    now apply sc_i_print.
+  - exists (- n). unfold sc_i. rewrite skip_ws_nonspace by reflexivity.
+    unfold sc_sign. rewrite Z.eqb_refl. rewrite sc_i_body_nat by assumption. reflexivity.
+Qed.
+
+Lemma sc_d_signed sg n rest : (sg = [] \/ sg = [45]) -> 0 <= n -> num_follow rest ->
+  exists v, sc_d (sg ++ dec_nat n ++ rest) = Some (v, rest).
+Proof.
+  intros [->| ->] Hn Hr; cbn [app].
+  - exists n. now apply sc_d_nat.
+  - exists (- n). unfold sc_d. rewrite skip_ws_nonspace by reflexivity.
+    unfold sc_sign. rewrite Z.eqb_refl.
+    destruct (dec_nat_nonempty n Hn) as (c & tl & E & Hc). rewrite E. cbn [app]. rewrite hd0_cons, Hc.
+    change (c :: tl ++ rest) with ((c :: tl) ++ rest). rewrite <- E.
+    rewrite read_digs_app by (try apply dec_nat_digits; try assumption; apply Hr).
+    rewrite dec_nat_val by assumption. reflexivity.
+Qed.
+
+Lemma dig_tokch ds : Forall dig ds -> Forall (fun c => tokch c = true) ds.
+Proof. apply digits_tokch. Qed.
+
+Lemma sg_tokch sg : sg = [] \/ sg = [45] -> Forall (fun c => tokch c = true) sg.
+Proof. intros [->| ->]; repeat constructor. Qed.
+
+Lemma hd0_app_digits ds c r : Forall dig ds -> c <> 46 -> hd0 (ds ++ c :: r) <> 46.
+Proof.
+  intros Hd Hc. destruct Hd as [|d ds Hd _]; cbn [app]; rewrite hd0_cons; [assumption|].
+  apply isdigit_spec in Hd. lia.
+Qed.
+
+Section DecText.
+Variables (sg : str) (n1 : Z) (fr : str).
+Hypothesis Hok : okdec sg n1 fr.
+
+Lemma dec_tok_end t r : Forall (fun c => tokch c = true) t -> hd0 (t ++ r) <> 46 ->
+  tok_end (dectext sg n1 fr ++ t ++ r) = tok_end r.
+Proof.
+  destruct Hok as (Hsg & Hn & Hfr). intros Ht H46. unfold dectext.
+  rewrite <- !app_assoc. rewrite tok_end_skip by now apply sg_tokch.
+  rewrite tok_end_skip by now apply dig_tokch, dec_nat_digits.
+  cbn [app]. rewrite tok_end_dot.
+  - rewrite tok_end_skip by now apply dig_tokch. now apply tok_end_skip.
+  - destruct Hfr as [|d ds Hd _]; cbn [app]; [assumption|]. rewrite hd0_cons. apply isdigit_spec in Hd. lia.
+Qed.
+
+Lemma dec_after_int X :
+  (exists v, sc_i (dectext sg n1 fr ++ X) = Some (v, 46 :: fr ++ X)) /\
+  (exists v, sc_d (dectext sg n1 fr ++ X) = Some (v, 46 :: fr ++ X)).
+Proof.
+  destruct Hok as (Hsg & Hn & Hfr). unfold dectext. rewrite <- !app_assoc. cbn [app].
+  assert (Hnf : num_follow (46 :: fr ++ X)) by (unfold num_follow; rewrite !hd0_cons; split; [reflexivity|split; lia]).
+  split; [now apply sc_i_signed|now apply sc_d_signed].
+Qed.
+
+Lemma dec_sc_f c X : isdigit c = false -> c <> 101 -> c <> 69 ->
+  sc_f (dectext sg n1 fr ++ c :: X) = Some (false, dectext sg n1 fr, c :: X).
+Proof.
+  destruct Hok as (Hsg & Hn & Hfr). intros Hc H1 H2. unfold sc_f.
+  destruct (dec_nat_nonempty n1 Hn) as (c0 & tl & E & Hc0). pose proof Hc0 as Hc0'. apply isdigit_spec in Hc0'.
+  assert (Hws : skip_ws (dectext sg n1 fr ++ c :: X) = dectext sg n1 fr ++ c :: X).
+  { apply skip_ws_nonspace. unfold dectext. destruct Hsg as [->| ->]; cbn [app]; [|reflexivity].
+    rewrite E. cbn [app]. rewrite hd0_cons. unfold isspace, in_range. lia. }
+  rewrite Hws.
+  assert (Hsign : sc_sign (dectext sg n1 fr ++ c :: X) = (match sg with [] => false | _ => true end,
+                                                          dec_nat n1 ++ 46 :: fr ++ c :: X)).
+  { unfold dectext. rewrite <- !app_assoc. cbn [app]. destruct Hsg as [->| ->]; cbn [app].
+    - rewrite E. cbn [app]. rewrite sc_sign_other by lia. reflexivity.
+    - reflexivity. }
+  rewrite Hsign.
+  assert (Hnohex : (hd0 (dec_nat n1 ++ 46 :: fr ++ c :: X) =? 48) &&
+                   ((at_ (dec_nat n1 ++ 46 :: fr ++ c :: X) 1 =? 120) || (at_ (dec_nat n1 ++ 46 :: fr ++ c :: X) 1 =? 88)) = false).
+  { pose proof (dec_nat_digits n1 Hn) as Hd. rewrite E in *. cbn [app]. rewrite hd0_cons.
+    inversion Hd as [|? ? _ Htl]; subst. unfold at_. cbn [nth app].
+    destruct Htl as [|d tl' Hd' _]; cbn [app nth].
+    - now rewrite andb_false_r.
+    - apply isdigit_spec in Hd'. replace ((d =? 120) || (d =? 88)) with false by lia. now rewrite andb_false_r. }
+  rewrite Hnohex.
+  rewrite takewhile_app, dropwhile_app by (try apply dec_nat_digits; try assumption; reflexivity).
+  rewrite hd0_cons. change (46 =? 46) with true. cbv iota. cbn [skipn].
+  assert (Hcx : isdigit (hd0 (c :: X)) = false) by now rewrite hd0_cons.
+  rewrite takewhile_app, dropwhile_app by assumption.
+  assert (Hlen : Nat.eqb (length (dec_nat n1) + length fr) 0 = false).
+  { apply Nat.eqb_neq. rewrite E. cbn [length]. lia. }
+  rewrite Hlen. unfold opt_exp. replace ((c =? 101) || (c =? 69)) with false by lia.
+  f_equal. f_equal. f_equal. apply firstn_app_exact.
+Qed.
+
+Lemma dec_fmtstr_f X : scanf_fmtstr (dectext sg n1 fr ++ 32 :: X) = Some F_f /\
+                       tok_end (dectext sg n1 fr ++ 32 :: X) = 32 :: X.
+Proof.
+  assert (He : tok_end (dectext sg n1 fr ++ 32 :: X) = 32 :: X).
+  { change (32 :: X) with ([] ++ 32 :: X) at 1.
+    rewrite (dec_tok_end [] (32 :: X)); [reflexivity|constructor|cbn [app]; rewrite hd0_cons; lia]. }
+  split; [|exact He]. unfold scanf_fmtstr. rewrite He.
+  destruct (dec_after_int (32 :: X)) as ((vi & Hi) & (vd & Hd)). rewrite Hi, Hd.
+  cbn [after_int bind_lit lit]. change (46 =? 104) with false. change (46 =? 105) with false. cbv iota.
+  assert (Hsp : same_pos (46 :: fr ++ 32 :: X) (32 :: X) = false).
+  { change (46 :: fr ++ 32 :: X) with ((46 :: fr) ++ 32 :: X). now apply same_pos_longer. }
+  rewrite Hsp. unfold after_flt. rewrite dec_sc_f by (try reflexivity; lia).
+  cbn [bind_lit lit]. change (32 =? 100) with false. change (32 =? 102) with false. cbv iota.
+  now rewrite same_pos_refl.
+Qed.
+
+Lemma dec_fmtstr_d X : scanf_fmtstr (dectext sg n1 fr ++ 100 :: 32 :: X) = Some F_lfd /\
+                       tok_end (dectext sg n1 fr ++ 100 :: 32 :: X) = 32 :: X.
+Proof.
+  assert (He : tok_end (dectext sg n1 fr ++ 100 :: 32 :: X) = 32 :: X).
+  { change (100 :: 32 :: X) with ([100] ++ 32 :: X) at 1.
+    rewrite (dec_tok_end [100] (32 :: X)); [reflexivity|repeat constructor|cbn [app]; rewrite hd0_cons; lia]. }
+  split; [|exact He]. unfold scanf_fmtstr. rewrite He.
+  destruct (dec_after_int (100 :: 32 :: X)) as ((vi & Hi) & (vd & Hd)). rewrite Hi, Hd.
+  cbn [after_int bind_lit lit]. change (46 =? 104) with false. change (46 =? 105) with false. cbv iota.
+  assert (Hsp : same_pos (46 :: fr ++ 100 :: 32 :: X) (32 :: X) = false).
+  { replace (46 :: fr ++ 100 :: 32 :: X) with ((46 :: fr ++ [100]) ++ 32 :: X)
+      by (cbn [app]; f_equal; now rewrite <- app_assoc).
+    now apply same_pos_longer. }
+  rewrite Hsp. unfold after_flt. rewrite dec_sc_f by (try reflexivity; lia).
+  cbn [bind_lit lit]. change (100 =? 100) with true. cbv iota.
+  now rewrite same_pos_refl.
+Qed.
+
+Lemma dec_default tail :
+  exists c tl, dectext sg n1 fr ++ tail = c :: tl /\ first_class c = FC_other /\ isidstart c = false /\
+    is_range_multiplier (c :: tl) = false /\ skip_fmt fmt_date (c :: tl) = c :: tl /\ first_ok c.
+Proof.
+  destruct Hok as (Hsg & Hn & Hfr).
+  destruct (dec_nat_nonempty n1 Hn) as (c0 & tl & E & Hc0). pose proof Hc0 as Hc0'. apply isdigit_spec in Hc0'.
+  pose proof (dec_nat_digits n1 Hn) as Hd. rewrite E in Hd. inversion Hd as [|? ? _ Htl]; subst.
+  assert (Er : is_range_multiplier (dectext sg n1 fr ++ tail) = false).
+  { unfold dectext. rewrite E, <- !app_assoc. cbn [app].
+    apply range_mult_no; try assumption; rewrite hd0_cons; [reflexivity|lia]. }
+  assert (Ed : skip_fmt fmt_date (dectext sg n1 fr ++ tail) = dectext sg n1 fr ++ tail).
+  { unfold dectext. rewrite E, <- !app_assoc. cbn [app].
+    apply date_no; try assumption; rewrite hd0_cons; [reflexivity|lia]. }
+  unfold dectext in *. rewrite E in *. destruct Hsg as [->| ->]; cbn [app] in *.
+  - eexists _, _. split; [reflexivity|]. split; [apply first_class_num; lia|].
+    split; [apply isidstart_num; lia|]. split; [assumption|]. split; [assumption|apply first_ok_num; lia].
+  - eexists _, _. split; [reflexivity|]. split; [apply first_class_num; lia|].
+    split; [apply isidstart_num; lia|]. split; [assumption|]. split; [assumption|apply first_ok_num; lia].
+Qed.
+End DecText.
+
+(* ---- the hexadecimal text ------------------------------------------------------ *)
+Lemma xdig_tokch ds : Forall xdig ds -> Forall (fun c => tokch c = true) ds.
+Proof.
+  intros H. eapply Forall_impl; [|exact H]. intros a Ha. unfold xdig in Ha.
+  unfold tokch, isspace, isxdigit, isdigit, in_range in *. lia.
+Qed.
+
+Lemma print_exp_shape ex : exists sgc, print_exp ex = sgc :: dec_nat (Z.abs ex) /\ (sgc = 43 \/ sgc = 45).
+Proof. unfold print_exp. destruct (ex <? 0); eexists; split; try reflexivity; auto. Qed.
+
+Section HexText.
+Variables (neg : bool) (lead : Z) (frac : str) (ex : Z).
+Hypothesis Hl : lead = 48 \/ lead = 49.
+Hypothesis Hfr : Forall xdig frac.
+
+Definition dotfrac : str := match frac with [] => [] | _ => 46 :: frac end.
+Definition hextail (Y : str) : str := dotfrac ++ 112 :: print_exp ex ++ Y.
+
+Lemma hextext_eq Y :
+  hextext neg lead frac ex ++ Y = (if neg then [45] else []) ++ 48 :: 120 :: lead :: hextail Y.
+Proof.
+  unfold hextext, hextail. fold dotfrac. destruct neg; cbn [app]; rewrite <- app_assoc; reflexivity.
+Qed.
+
+Lemma hextail_hd Y : hd0 (hextail Y) = 46 \/ hd0 (hextail Y) = 112.
+Proof. unfold hextail, dotfrac. destruct frac; cbn [app]; rewrite hd0_cons; auto. Qed.
+
+Lemma hextail_ne Y : hextail Y = (dotfrac ++ 112 :: print_exp ex) ++ Y /\ dotfrac ++ 112 :: print_exp ex <> [].
+Proof.
+  unfold hextail. split; [now rewrite <- app_assoc|]. destruct dotfrac; discriminate.
+Qed.
+
+Lemma lead_facts : isxdigit lead = true /\ isdigit lead = true /\ tokch lead = true /\ isspace lead = false.
+Proof. destruct Hl as [->| ->]; repeat split; reflexivity. Qed.
+
+Lemma hex_ws Y : skip_ws (hextext neg lead frac ex ++ Y) = hextext neg lead frac ex ++ Y.
+Proof. apply skip_ws_nonspace. rewrite hextext_eq. destruct neg; reflexivity. Qed.
+
+Lemma hex_sign Y : sc_sign (hextext neg lead frac ex ++ Y) = (neg, 48 :: 120 :: lead :: hextail Y).
+Proof. rewrite hextext_eq. destruct neg; reflexivity. Qed.
+
+Lemma hex_tok_end rest : tok_end (hextext neg lead frac ex ++ 41 :: rest) = 41 :: rest.
+Proof.
+  rewrite hextext_eq.
+  rewrite tok_end_skip by (destruct neg; repeat constructor).
+  change (48 :: 120 :: lead :: hextail (41 :: rest)) with ([48; 120; lead] ++ hextail (41 :: rest)).
+  rewrite tok_end_skip by (repeat constructor; apply lead_facts).
+  destruct (print_exp_shape ex) as (sgc & Ee & Hsgc).
+  assert (Hp : tok_end (112 :: print_exp ex ++ 41 :: rest) = 41 :: rest).
+  { rewrite Ee. change (112 :: (sgc :: dec_nat (Z.abs ex)) ++ 41 :: rest)
+      with ([112; sgc] ++ dec_nat (Z.abs ex) ++ 41 :: rest).
+    rewrite tok_end_skip by (destruct Hsgc as [->| ->]; repeat constructor).
+    rewrite tok_end_skip by (apply dig_tokch, dec_nat_digits; lia).
+    now apply tok_end_stop. }
+  unfold hextail, dotfrac. destruct frac as [|c0 fr] eqn:Ef; cbn [app]; [exact Hp|].
+  rewrite tok_end_dot.
+  - change (c0 :: fr ++ 112 :: print_exp ex ++ 41 :: rest) with ((c0 :: fr) ++ 112 :: print_exp ex ++ 41 :: rest).
+    rewrite tok_end_skip by now apply xdig_tokch. exact Hp.
+  - rewrite hd0_cons. inversion Hfr as [|? ? Hc _]; subst.
+    unfold xdig, isxdigit, isdigit, in_range in Hc. lia.
+Qed.
+
+Lemma hex_sc_i Y : exists v, sc_i (hextext neg lead frac ex ++ Y) = Some (v, hextail Y).
+Proof.
+  unfold sc_i. rewrite hex_ws, hex_sign. cbn [sc_i_body]. rewrite hd0_cons.
+  change ((48 =? 48) && ((120 =? 120) || (120 =? 88))) with true. cbv iota. cbn [skipn].
+  rewrite hd0_cons. destruct lead_facts as (Hx & _). rewrite Hx.
+  cbn [read_digs]. rewrite Hx. rewrite read_digs_stop.
+  - eexists. reflexivity.
+  - destruct (hextail_hd Y) as [-> | ->]; reflexivity.
+Qed.
+
+Lemma hex_sc_d Y : exists v, sc_d (hextext neg lead frac ex ++ Y) = Some (v, 120 :: lead :: hextail Y).
+Proof.
+  unfold sc_d. rewrite hex_ws, hex_sign. rewrite hd0_cons. change (isdigit 48) with true. cbv iota.
+  cbn [read_digs]. change (isdigit 48) with true. change (isdigit 120) with false. cbv iota.
+  eexists. reflexivity.
+Qed.
+
+Lemma hex_sc_f rest :
+  sc_f (hextext neg lead frac ex ++ 41 :: rest) = Some (true, hextext neg lead frac ex, 41 :: rest).
+Proof.
+  unfold sc_f. rewrite hex_ws, hex_sign. rewrite hd0_cons.
+  change ((48 =? 48) && ((at_ (48 :: 120 :: lead :: hextail (41 :: rest)) 1 =? 120)
+                         || (at_ (48 :: 120 :: lead :: hextail (41 :: rest)) 1 =? 88))) with true.
+  cbv iota. cbn [skipn].
+  destruct lead_facts as (Hx & _).
+  assert (Htl : isxdigit (hd0 (hextail (41 :: rest))) = false)
+    by (destruct (hextail_hd (41 :: rest)) as [-> | ->]; reflexivity).
+  change (lead :: hextail (41 :: rest)) with ([lead] ++ hextail (41 :: rest)).
+  rewrite takewhile_app, dropwhile_app by (try assumption; repeat constructor; assumption).
+  destruct (print_exp_shape ex) as (sgc & Ee & Hsgc).
+  assert (Hexp : opt_exp 112 80 (112 :: print_exp ex ++ 41 :: rest) = Some (41 :: rest)).
+  { unfold opt_exp. change ((112 =? 112) || (112 =? 80)) with true. cbv iota.
+    rewrite Ee. cbn [app].
+    assert (Hs : sc_sign (sgc :: dec_nat (Z.abs ex) ++ 41 :: rest) = (negb (sgc =? 43), dec_nat (Z.abs ex) ++ 41 :: rest))
+      by (destruct Hsgc as [->| ->]; reflexivity).
+    rewrite Hs.
+    destruct (dec_nat_nonempty (Z.abs ex) ltac:(lia)) as (c & tl & E & Hc). rewrite E at 1. cbn [app].
+    rewrite hd0_cons, Hc. f_equal. apply dropwhile_app; [apply dec_nat_digits; lia|reflexivity]. }
+  unfold hextail. unfold dotfrac. destruct frac as [|c0 fr] eqn:Ef.
+  - cbn [app]. rewrite hd0_cons. change (112 =? 46) with false. cbv iota. cbn [length Nat.add Nat.eqb].
+    rewrite Hexp. f_equal. f_equal. f_equal. rewrite <- Ef. apply firstn_app_exact.
+  - cbn [app]. rewrite hd0_cons. change (46 =? 46) with true. cbv iota. cbn [skipn].
+    change (c0 :: fr ++ 112 :: print_exp ex ++ 41 :: rest) with ((c0 :: fr) ++ 112 :: print_exp ex ++ 41 :: rest).
+    rewrite takewhile_app, dropwhile_app by (try assumption; reflexivity).
+    cbn [length Nat.add Nat.eqb]. rewrite Hexp. f_equal. f_equal. f_equal. rewrite <- Ef. apply firstn_app_exact.
+Qed.
+
+Lemma hex_fmtstr rest : scanf_fmtstr (hextext neg lead frac ex ++ 41 :: rest) = Some F_f.
+Proof.
+  unfold scanf_fmtstr. rewrite hex_tok_end.
+  destruct (hex_sc_i (41 :: rest)) as (vi & Hi). destruct (hex_sc_d (41 :: rest)) as (vd & Hd).
+  rewrite Hi, Hd. cbn [after_int bind_lit].
+  assert (L1 : lit 104 (hextail (41 :: rest)) = None)
+    by (apply lit_none; destruct (hextail_hd (41 :: rest)) as [-> | ->]; lia).
+  assert (L2 : lit 105 (hextail (41 :: rest)) = None)
+    by (apply lit_none; destruct (hextail_hd (41 :: rest)) as [-> | ->]; lia).
+  rewrite L1, L2.
+  destruct (hextail_ne (41 :: rest)) as (Et & Hne).
+  assert (S1 : same_pos (hextail (41 :: rest)) (41 :: rest) = false)
+    by (rewrite Et; now apply same_pos_longer).
+  assert (S2 : same_pos (120 :: lead :: hextail (41 :: rest)) (41 :: rest) = false).
+  { rewrite Et. change (120 :: lead :: (dotfrac ++ 112 :: print_exp ex) ++ 41 :: rest)
+      with ((120 :: lead :: dotfrac ++ 112 :: print_exp ex) ++ 41 :: rest).
+    apply same_pos_longer. discriminate. }
+  rewrite S1, S2. unfold after_flt. rewrite hex_sc_f. cbn [bind_lit lit].
+  change (41 =? 100) with false. change (41 =? 102) with false. cbv iota.
+  now rewrite same_pos_refl.
+Qed.
+End HexText.
+
+Lemma fmt_a_reads d rest :
+  skip_ws (fmt_a d ++ 41 :: rest) = fmt_a d ++ 41 :: rest /\
+  scanf_fmtstr (fmt_a d ++ 41 :: rest) = Some F_f /\
+  tok_end (fmt_a d ++ 41 :: rest) = 41 :: rest /\
+  sc_f (fmt_a d ++ 41 :: rest) = Some (true, fmt_a d, 41 :: rest).
+Proof.
+  pose proof (fmt_a_text d) as E. cbv zeta in E. rewrite E.
+  set (e := d / 2 ^ 52 mod 2 ^ 11). set (f := d mod 2 ^ 52).
+  assert (Hf : 0 <= f < 2 ^ 52) by (apply Z.mod_pos_bound; lia).
+  destruct (frac_digits f Hf) as (Hx & _ & _).
+  assert (Hl : (if e =? 0 then 48 else 49) = 48 \/ (if e =? 0 then 48 else 49) = 49) by (destruct (e =? 0); auto).
+  split; [now apply hex_ws|]. split; [now apply hex_fmtstr|]. split; [now apply hex_tok_end|now apply hex_sc_f].
+Qed.
+
+(* ------------------------------------------------------------------------- *)
+(* Part 5: the tokens  <decimal> (<hexadecimal>)  and  <decimal>d (<hexadecimal>) *)
+Definition flt_text (p d : Z) : str := fmt_f p d ++ [32; 40] ++ fmt_a d ++ [41].
+Definition dbl_text (p d : Z) : str := fmt_f p d ++ 100 :: [32; 40] ++ fmt_a d ++ [41].
+
+Lemma close_paren rest :
+  skip_fmt_null fmt_close_paren (41 :: rest) = Some rest /\ skip_fmt fmt_close_paren (41 :: rest) = rest.
+Proof.
+  unfold skip_fmt_null, skip_fmt, fmt_close_paren. cbn [run_fmt].
+  change (skip_ws (41 :: rest)) with (41 :: rest). cbn [lit]. change (41 =? 41) with true. cbv iota.
+  cbn [rev]. split; [|reflexivity].
+  replace (Nat.eqb (length rest) (length (41 :: rest))) with false; [reflexivity|].
+  symmetry. apply Nat.eqb_neq. cbn [length]. lia.
+Qed.
+
+Section FloatTokens.
+Variables dec2f dec2d : str -> Z.
+
+Lemma tok_float p b : 0 <= b < 2 ^ 32 -> f32_finite b = true ->
+  tok_core dec2f dec2d (VFl b) (flt_text p (f32_to_f64 b)).
+Proof.
+  intros Hb Hfin rest Hr. unfold flt_text. set (d := f32_to_f64 b).
+  destruct (fmt_f_shape p d) as (sg & n1 & fr & Ef & Hok). rewrite Ef.
+  destruct (fmt_a_reads d rest) as (Hws & Hfm & Hte & Hsf).
+  replace ((dectext sg n1 fr ++ [32; 40] ++ fmt_a d ++ [41]) ++ rest)
+    with (dectext sg n1 fr ++ 32 :: 40 :: fmt_a d ++ 41 :: rest)
+    by (rewrite <- !app_assoc; reflexivity).
+  destruct (dec_default sg n1 fr Hok (32 :: 40 :: fmt_a d ++ 41 :: rest))
+    as (c & tl & E & Hfc & Hid & Hrm & Hdt & _).
+  destruct (dec_fmtstr_f sg n1 fr Hok (40 :: fmt_a d ++ 41 :: rest)) as (Hf & He).
+  pose proof (dec_sc_f sg n1 fr Hok 32 (40 :: fmt_a d ++ 41 :: rest) eq_refl ltac:(lia) ltac:(lia)) as Hdf.
+  destruct (close_paren rest) as (Hcp1 & Hcp2).
+  assert (Hsw : skip_ws (32 :: 40 :: fmt_a d ++ 41 :: rest) = 40 :: fmt_a d ++ 41 :: rest) by reflexivity.
+  rewrite E in *. split; intros.
+  - unfold skip_core. rewrite Hfc, Hrm, Hid, Hdt, same_pos_refl. cbn [negb].
+    unfold skip_numeric at 1. rewrite Hf, He. cbn [numfmt_type]. rewrite Hsw, hd0_cons.
+    change (40 =? 40) with true. change ((102 =? 102) || (102 =? 100)) with true. cbv iota. cbn [skipn].
+    rewrite Hws. unfold skip_numeric. rewrite Hfm, Hte. cbn [numfmt_type]. rewrite Hcp1. reflexivity.
+  - unfold scan_core. rewrite Hfc, Hrm, Hid, Hdt, same_pos_refl. cbn [negb].
+    unfold scan_numeric. unfold scan_numeric_once at 1. rewrite Hf, He, Hdf. rewrite Hsw, hd0_cons.
+    change (40 =? 40) with true. cbv iota. cbn [skipn]. rewrite Hws, Hfm.
+    unfold scan_numeric_once. rewrite Hfm, Hsf, Hte. cbn [store_second]. rewrite Hcp2.
+    unfold flt_val. unfold d. now rewrite f32_roundtrip.
+Qed.
+
+Lemma tok_double p b : 0 <= b < 2 ^ 64 -> f64_finite b = true ->
+  tok_core dec2f dec2d (VD b) (dbl_text p b).
+Proof.
+  intros Hb Hfin rest Hr. unfold dbl_text. set (d := b).
+  destruct (fmt_f_shape p d) as (sg & n1 & fr & Ef & Hok). rewrite Ef.
+  destruct (fmt_a_reads d rest) as (Hws & Hfm & Hte & Hsf).
+  replace ((dectext sg n1 fr ++ 100 :: [32; 40] ++ fmt_a d ++ [41]) ++ rest)
+    with (dectext sg n1 fr ++ 100 :: 32 :: 40 :: fmt_a d ++ 41 :: rest)
+    by (rewrite <- !app_assoc; cbn [app]; rewrite <- ?app_assoc; reflexivity).
+  destruct (dec_default sg n1 fr Hok (100 :: 32 :: 40 :: fmt_a d ++ 41 :: rest))
+    as (c & tl & E & Hfc & Hid & Hrm & Hdt & _).
+  destruct (dec_fmtstr_d sg n1 fr Hok (40 :: fmt_a d ++ 41 :: rest)) as (Hf & He).
+  pose proof (dec_sc_f sg n1 fr Hok 100 (32 :: 40 :: fmt_a d ++ 41 :: rest) eq_refl ltac:(lia) ltac:(lia)) as Hdf.
+  destruct (close_paren rest) as (Hcp1 & Hcp2).
+  assert (Hsw : skip_ws (32 :: 40 :: fmt_a d ++ 41 :: rest) = 40 :: fmt_a d ++ 41 :: rest) by reflexivity.
+  rewrite E in *. split; intros.
+  - unfold skip_core. rewrite Hfc, Hrm, Hid, Hdt, same_pos_refl. cbn [negb].
+    unfold skip_numeric at 1. rewrite Hf, He. cbn [numfmt_type]. rewrite Hsw, hd0_cons.
+    change (40 =? 40) with true. change ((100 =? 102) || (100 =? 100)) with true. cbv iota. cbn [skipn].
+    rewrite Hws. unfold skip_numeric. rewrite Hfm, Hte. cbn [numfmt_type]. rewrite Hcp1. reflexivity.
+  - unfold scan_core. rewrite Hfc, Hrm, Hid, Hdt, same_pos_refl. cbn [negb].
+    unfold scan_numeric. unfold scan_numeric_once at 1. rewrite Hf, He, Hdf. rewrite Hsw, hd0_cons.
+    change (40 =? 40) with true. cbv iota. cbn [skipn]. rewrite Hws, Hfm.
+    rewrite Hsf. cbn [store_second]. rewrite Hcp2.
+    unfold dbl_val. unfold d. now rewrite f64_roundtrip.
+Qed.
+End FloatTokens.
